@@ -197,5 +197,11 @@ fn end(name: &str) -> Event<'_> {
 
 /// text event
 fn text(content: &str) -> Event<'_> {
+    // A literal carriage return is turned into a line feed by every conforming XML reader (XML 1.0, 2.11):
+    // as data it has to travel as a character reference.
+    if content.contains('\r') {
+        let escaped = quick_xml::escape::escape(content).replace('\r', "&#xD;");
+        return Event::Text(BytesText::from_escaped(escaped));
+    }
     Event::Text(BytesText::new(content))
 }
